@@ -532,14 +532,15 @@ def run_reuse_subprocess(args: list, cwd=None, env: dict | None = None, timeout:
     if env:
         e.update(env)
     try:
-        p = subprocess.run([sys.executable, *([script] if script else ["-m", "reuse"]), *[str(a) for a in args]], cwd=cwd, env=e,
-                           capture_output=True, text=True, timeout=timeout)
+        script = script or str(Path(__file__).resolve().parent / "realmain.py")
+        p = subprocess.run([sys.executable, script, *[str(a) for a in args]], cwd=cwd, env=e,
+                           capture_output=True, text=True, encoding="utf-8", errors="replace", timeout=timeout)
     except subprocess.TimeoutExpired:
         # a command that does not terminate is an observation, not a failure of the machinery
         return {"exit": -9, "out": "", "err": "", "exc": f"TIMEOUT: the command did not terminate within {timeout} s"}
     exc = None
-    if "Traceback (most recent call last)" in p.stderr:
-        exc = p.stderr[-1500:]
+    if "REUSE-VERIF-UNHANDLED-EXCEPTION" in p.stderr:       # written by the excepthook of realmain.py / stubnet_main.py
+        exc = p.stderr.split("REUSE-VERIF-UNHANDLED-EXCEPTION", 1)[1][-1500:]
     return {"exit": p.returncode, "out": p.stdout, "err": p.stderr, "exc": exc}
 
 
